@@ -292,6 +292,9 @@ func c05Run1(r5, r6 *mc.Report, node string, hist []string) (canon string, expan
 		}
 		defer env.close()
 		x := &c05Exec{r5: r5, r6: r6, node: node, env: env, pool: c05Pool(c04Nodes[node]), hist: hist}
+		if r0 := env.cs.Radius(); !r0.Eq(maxU256) {
+			x.v6("fresh-store-advertises-the-maximum-radius", "NewStorage", fmt.Sprintf("a store opened on an empty database advertises radius %s", r0.Hex()))
+		}
 		x.start(hist[0])
 		for i, ev := range hist[1:] {
 			p := strings.Split(ev, ":") // put:<id>:<size>
